@@ -386,3 +386,429 @@ Proof.
 Qed.
 
 Print Assumptions C09_decision.
+
+(* ------------------------------------------------------------------------------------------ *)
+(* Part 2: Fs.put is framed.  No sortedness of the entry lists is needed: alookup after         *)
+(* ins_sorted / aremove at another key is unchanged for arbitrary association lists.            *)
+(* ------------------------------------------------------------------------------------------ *)
+(* neither path is equal to, above or below the other *)
+Definition incomp (p q : list bytes) : Prop := is_prefix p q = false /\ is_prefix q p = false.
+
+Lemma alookup_aremove_other {A} k k' (l : list (bytes * A)) : k <> k' -> alookup k (aremove k' l) = alookup k l.
+Proof.
+  intros Hne. induction l as [|[k2 v2] r IH]; cbn [aremove alookup]; [reflexivity|].
+  destruct (beqb k' k2) eqn:Hb.
+  - apply beqb_eq in Hb. subst k2. apply beqb_neq in Hne. rewrite Hne. exact IH.
+  - cbn [alookup]. rewrite IH. reflexivity.
+Qed.
+
+Lemma alookup_dset_other es k k' v : k <> k' -> alookup k (dset es k' v) = alookup k es.
+Proof.
+  intros Hne. destruct v as [n|]; cbn [dset]; [apply alookup_ins_other|apply alookup_aremove_other]; exact Hne.
+Qed.
+
+Lemma incomp_cons_inv x q y p :
+  incomp (x :: q) (y :: p) -> x <> y \/ (x = y /\ incomp q p).
+Proof.
+  intros [H1 H2]. cbn [is_prefix] in H1, H2.
+  destruct (bytes_dec x y) as [He|Hn]; [|left; exact Hn].
+  right. split; [exact He|]. subst y. rewrite beqb_refl in H1, H2. split; assumption.
+Qed.
+
+Lemma incomp_nil_r p : ~ incomp p [].
+Proof. intros [_ H2]. cbn [is_prefix] in H2. discriminate. Qed.
+Lemma incomp_nil_l p : ~ incomp [] p.
+Proof. intros [H1 _]. cbn [is_prefix] in H1. discriminate. Qed.
+
+Lemma put_frame : forall q n v n' p,
+  put n q v = Some n' -> incomp q p -> get n' p = get n p /\ blocked n' p = blocked n p.
+Proof.
+  induction q as [|x q IH]; intros n v n' p Hput Hinc.
+  { exfalso. eapply incomp_nil_l. exact Hinc. }
+  destruct p as [|y p]; [exfalso; eapply incomp_nil_r; exact Hinc|].
+  cbn [put] in Hput. destruct n as [b|d|t|es|]; try discriminate.
+  assert (Hother : forall es', (forall k, k <> x -> alookup k es' = alookup k es) -> y <> x ->
+             get (Dir es') (y :: p) = get (Dir es) (y :: p) /\ blocked (Dir es') (y :: p) = blocked (Dir es) (y :: p)).
+  { intros es' Hes' Hne. cbn [get blocked]. rewrite (Hes' y Hne). split; reflexivity. }
+  destruct (incomp_cons_inv _ _ _ _ Hinc) as [Hne|[Heq Hinc']].
+  - (* different first component *)
+    assert (Hne' : y <> x) by congruence.
+    destruct (alookup x es) as [m|] eqn:Hx.
+    + destruct q as [|x2 q].
+      * inversion Hput; subst. apply Hother; [|exact Hne']. intros k Hk. first [apply alookup_dset_other; exact Hk|apply alookup_ins_other; exact Hk|apply alookup_aremove_other; exact Hk].
+      * destruct (put m (x2 :: q) v) as [m'|]; [|discriminate]. inversion Hput; subst.
+        apply Hother; [|exact Hne']. intros k Hk. first [apply alookup_dset_other; exact Hk|apply alookup_ins_other; exact Hk|apply alookup_aremove_other; exact Hk].
+    + destruct v as [nv|]; [|inversion Hput; subst; split; reflexivity].
+      destruct q as [|x2 q].
+      * inversion Hput; subst. apply Hother; [|exact Hne']. intros k Hk. first [apply alookup_dset_other; exact Hk|apply alookup_ins_other; exact Hk|apply alookup_aremove_other; exact Hk].
+      * destruct (put (Dir []) (x2 :: q) (Some nv)) as [m'|]; [|discriminate]. inversion Hput; subst.
+        apply Hother; [|exact Hne']. intros k Hk. first [apply alookup_dset_other; exact Hk|apply alookup_ins_other; exact Hk|apply alookup_aremove_other; exact Hk].
+  - subst y. destruct q as [|x2 q]; [exfalso; eapply incomp_nil_l; exact Hinc'|].
+    destruct (alookup x es) as [m|] eqn:Hx.
+    + destruct (put m (x2 :: q) v) as [m'|] eqn:Hm; [|discriminate]. inversion Hput; subst.
+      cbn [get blocked dset]. rewrite alookup_ins_same, Hx. eapply IH; eassumption.
+    + destruct v as [nv|]; [|inversion Hput; subst; split; reflexivity].
+      destruct (put (Dir []) (x2 :: q) (Some nv)) as [m'|] eqn:Hm; [|discriminate]. inversion Hput; subst.
+      cbn [get blocked dset]. rewrite alookup_ins_same, Hx.
+      destruct (IH _ _ _ _ Hm Hinc') as [Hg Hb]. rewrite Hg, Hb.
+      destruct p as [|z p]; [exfalso; eapply incomp_nil_r; exact Hinc'|]. split; reflexivity.
+Qed.
+Print Assumptions put_frame.
+
+(* ------------------------------------------------------------------------------------------ *)
+(* Part 3: executed or clean (the frame argument)                                              *)
+(* ------------------------------------------------------------------------------------------ *)
+Section Frame.
+  Variable H : bytes -> bytes.
+  Variable exec : bytes -> stage -> node -> cache -> res node.
+  Variable idx : index.
+  Variable c : cache.
+
+  Notation runI := (run_ins H exec idx c true).
+  Notation runS := (run_stage H exec).
+
+  (* (i) the command of a stage changes nothing at the paths that are incomparable with all the
+     outputs of the stage.  (The entries AT or BELOW an output may change arbitrarily, the
+     directories ABOVE an output necessarily change with it.) *)
+  Definition exec_framed : Prop :=
+    forall sp stg root root',
+      alookup sp idx = Some stg -> exec sp stg root c = Ok root' ->
+      forall p, (forall o, In o (s_outputs stg) -> incomp (comps (a_path o)) p) -> slot_eq root root' p.
+
+  (* (ii) an output of a stage X is incomparable with every output and with every plain (un-owned)
+     input of every other stage Y *)
+  Definition idx_wf : Prop :=
+    forall X sx Y sy o b,
+      X <> Y -> alookup X idx = Some sx -> alookup Y idx = Some sy ->
+      In o (s_outputs sx) ->
+      (In b (s_outputs sy) \/ (In b (s_inputs sy) /\ find_owner idx (a_path b) = None)) ->
+      incomp (comps (a_path o)) (comps (a_path b)).
+
+  (* not visited before, visited now *)
+  Definition newly (ran ran' : list (bytes * bool)) (X : bytes) : Prop :=
+    alookup X ran = None /\ alookup X ran' <> None.
+
+  Definition outside (S : bytes -> Prop) (p : list bytes) : Prop :=
+    forall X sx o, S X -> alookup X idx = Some sx -> In o (s_outputs sx) -> incomp (comps (a_path o)) p.
+
+  (* the root changed at most at/above/below the outputs of the stages in S *)
+  Definition touched (S : bytes -> Prop) (root root' : node) : Prop :=
+    forall p, outside S p -> slot_eq root root' p.
+
+  Lemma touched_refl S root : touched S root root.
+  Proof. intros p _. split; reflexivity. Qed.
+
+  Lemma touched_trans (S1 S2 S : bytes -> Prop) r0 r1 r2 :
+    (forall X, S1 X -> S X) -> (forall X, S2 X -> S X) ->
+    touched S1 r0 r1 -> touched S2 r1 r2 -> touched S r0 r2.
+  Proof.
+    intros H1 H2 Ht1 Ht2 p Hout.
+    assert (Ho1 : outside S1 p) by (intros X sx o HX; apply Hout; apply H1; exact HX).
+    assert (Ho2 : outside S2 p) by (intros X sx o HX; apply Hout; apply H2; exact HX).
+    destruct (Ht1 p Ho1) as [Hg1 Hb1]. destruct (Ht2 p Ho2) as [Hg2 Hb2].
+    split; congruence.
+  Qed.
+
+  Lemma touched_weaken (S1 S : bytes -> Prop) r0 r1 :
+    (forall X, S1 X -> S X) -> touched S1 r0 r1 -> touched S r0 r1.
+  Proof.
+    intros H1 Ht. eapply touched_trans; [exact H1|exact H1|exact Ht|apply touched_refl].
+  Qed.
+
+  (* unchanged since its last commit, in state (root, ranv): definition, plain inputs, owned
+     inputs (recorded checksum = the owner's, and the owner is itself clean), outputs *)
+  Record clean_at (root : node) (ranv : list (bytes * bool)) (stg : stage) : Prop := {
+    cl_def : def_ok H stg;
+    cl_nosrc : ~ is_source stg;
+    cl_plain : forall a, In a (s_inputs stg) -> find_owner idx (a_path a) = None ->
+                         short_top H a root c = Ok true;
+    cl_owned : forall a op up, In a (s_inputs stg) -> find_owner idx (a_path a) = Some (op, up) ->
+                               a_cs a = a_cs up /\ alookup op ranv = Some false;
+    cl_out : forall o, In o (s_outputs stg) -> short_top H o root c = Ok true }.
+
+  Record Inv (root : node) (ran : list (bytes * bool)) (log : list bytes) : Prop := {
+    I_idx : forall sp b, alookup sp ran = Some b -> exists stg, alookup sp idx = Some stg;
+    I_clean : forall sp stg, alookup sp ran = Some false -> alookup sp idx = Some stg ->
+                             clean_at root ran stg;
+    I_log : forall sp, In sp log -> alookup sp ran = Some true;
+    I_ran : forall sp stg, alookup sp ran = Some true -> alookup sp idx = Some stg ->
+                           s_cmd stg <> [] -> In sp log }.
+
+  Lemma Inv_nil root : Inv root [] [].
+  Proof.
+    split.
+    - intros sp b Hs. discriminate.
+    - intros sp stg Hs. discriminate.
+    - intros sp Hs. destruct Hs.
+    - intros sp stg Hs. discriminate.
+  Qed.
+
+  Hypothesis framed : exec_framed.
+  Hypothesis wf : idx_wf.
+
+  Definition mono (ran ran' : list (bytes * bool)) : Prop :=
+    forall s b, alookup s ran = Some b -> alookup s ran' = Some b.
+
+  Lemma clean_move (S : bytes -> Prop) root ran root' ran' Y sy :
+    alookup Y idx = Some sy -> touched S root root' -> (forall X, S X -> X <> Y) -> mono ran ran' ->
+    clean_at root ran sy -> clean_at root' ran' sy.
+  Proof.
+    intros HY Ht HS Hm Hcl.
+    assert (Hsame : forall b, (In b (s_outputs sy) \/ (In b (s_inputs sy) /\ find_owner idx (a_path b) = None)) ->
+                              short_top H b root' c = short_top H b root c).
+    { intros b Hb. apply short_top_slot. apply Ht. intros X sx o HX Hsx Ho.
+      eapply wf; [apply HS; exact HX|exact Hsx|exact HY|exact Ho|exact Hb]. }
+    split.
+    - apply Hcl.
+    - apply Hcl.
+    - intros a Ha Hfo. rewrite Hsame; [|right; split; assumption]. apply (cl_plain _ _ _ Hcl); assumption.
+    - intros a op up Ha Hfo. destruct (cl_owned _ _ _ Hcl a op up Ha Hfo) as [Hcs Hop].
+      split; [exact Hcs|apply Hm; exact Hop].
+    - intros o Ho. rewrite Hsame; [|left; exact Ho]. apply (cl_out _ _ _ Hcl). exact Ho.
+  Qed.
+
+  (* the inputs examined so far gave no reason to run *)
+  Definition pre_ok (root : node) (ranv : list (bytes * bool)) (done : list artifact) : Prop :=
+    (forall a, In a done -> find_owner idx (a_path a) = None -> short_top H a root c = Ok true) /\
+    (forall a op up, In a done -> find_owner idx (a_path a) = Some (op, up) ->
+                     a_cs a = a_cs up /\ alookup op ranv = Some false).
+
+  Lemma pre_ok_incl root ranv l1 l2 : incl l1 l2 -> pre_ok root ranv l2 -> pre_ok root ranv l1.
+  Proof.
+    intros Hi [Hp Ho]. split.
+    - intros a Ha. apply Hp. apply Hi. exact Ha.
+    - intros a op up Ha. apply Ho. apply Hi. exact Ha.
+  Qed.
+
+  Lemma pre_ok_nil root ranv : pre_ok root ranv [].
+  Proof. split; [intros a Ha; destruct Ha|intros a op up Ha; destruct Ha]. Qed.
+
+  Definition frame_spec (f : nat) (stack : list bytes) : Prop :=
+    forall root ran log fin sp root' ran' log',
+      W idx true True ran log fin -> disj ran stack -> Inv root ran log ->
+      runS f idx c true root ran log stack sp = Ok (root', ran', log') ->
+      Inv root' ran' log' /\ touched (newly ran ran') root root'.
+
+  Lemma newly_left ran ran1 ran2 X : mono ran1 ran2 -> newly ran ran1 X -> newly ran ran2 X.
+  Proof.
+    intros Hm [Hn Hs]. split; [exact Hn|]. destruct (alookup X ran1) as [b|] eqn:Hb; [|congruence].
+    rewrite (Hm _ _ Hb). discriminate.
+  Qed.
+
+  Lemma newly_right ran ran1 ran2 X : mono ran ran1 -> newly ran1 ran2 X -> newly ran ran2 X.
+  Proof.
+    intros Hm [Hn Hs]. split; [|exact Hs]. destruct (alookup X ran) as [b|] eqn:Hb; [|reflexivity].
+    rewrite (Hm _ _ Hb) in Hn. discriminate.
+  Qed.
+
+  Lemma ins_frame f stack sp stg :
+    frame_spec f stack -> alookup sp idx = Some stg -> In sp stack ->
+    forall arts root ran log doit fin root' ran' log' doit' done,
+      incl arts (s_inputs stg) -> incl done (s_inputs stg) ->
+      W idx true True ran log fin -> disj ran stack -> Inv root ran log ->
+      (doit = false -> pre_ok root ran done) ->
+      runI f stack arts root ran log doit = Ok (root', ran', log', doit') ->
+      Inv root' ran' log' /\ touched (newly ran ran') root root' /\
+      (doit' = false -> pre_ok root' ran' (arts ++ done)).
+  Proof.
+    intros IH Hstg Hsp.
+    induction arts as [|a r IHr];
+      intros root ran log doit fin root' ran' log' doit' done Hincl Hdone HW Hd HI Hpre Hrun.
+    - cbn [run_ins] in Hrun. inversion Hrun; subst.
+      split; [exact HI|]. split; [apply touched_refl|]. exact Hpre.
+    - assert (Hinclr : incl r (s_inputs stg)) by (intros x Hx; apply Hincl; right; exact Hx).
+      assert (Ha : In a (s_inputs stg)) by (apply Hincl; left; reflexivity).
+      assert (Hdone' : incl (a :: done) (s_inputs stg)).
+      { intros x [Hx|Hx]; [subst x; exact Ha|apply Hdone; exact Hx]. }
+      assert (Hshuffle : incl ((a :: r) ++ done) (r ++ a :: done)).
+      { intros x Hx. apply in_app_or in Hx as [[Hx|Hx]|Hx]; apply in_or_app.
+        - right. left. exact Hx.
+        - left. exact Hx.
+        - right. right. exact Hx. }
+      cbn [run_ins] in Hrun.
+      destruct (find_owner idx (a_path a)) as [[op up]|] eqn:Hfo.
+      + destruct (runS f idx c true root ran log stack op) as [[[root1 ran1] log1]|] eqn:Hsub; [|discriminate].
+        destruct (run_facts H exec idx c True _ _ _ _ _ _ _ _ _ _ HW Hd Hsub)
+          as [fin1 [HW1 [Hd1 [Hm1 [Hop1 _]]]]].
+        destruct (IH _ _ _ _ _ _ _ _ HW Hd HI Hsub) as [HI1 Ht1].
+        destruct (ins_facts H exec idx c True _ _ _ _ _ _ _ _ _ _ _ _ _ _ Hstg Hinclr HW1 Hd1 Hrun)
+          as [fin2 [HW2 [Hd2 [Hm2 _]]]].
+        destruct (alookup op ran1) as [b|] eqn:Hb; [|congruence].
+        assert (Hpre1 : doit || b || negb (beqb (a_cs a) (a_cs up)) = false -> pre_ok root1 ran1 (a :: done)).
+        { intros Hf. apply orb_false_iff in Hf as [Hf Hcs]. apply orb_false_iff in Hf as [Hdo Hbf].
+          subst b. apply negb_false_iff in Hcs. apply beqb_eq in Hcs.
+          destruct (Hpre Hdo) as [Hpp Hpo]. split.
+          - intros a0 [Ha0|Ha0] Hfo0; [subst a0; congruence|].
+            rewrite <- (Hpp a0 Ha0 Hfo0). apply short_top_slot. apply Ht1.
+            intros X sx o [HXn HXs] Hsx Ho.
+            eapply wf; [|exact Hsx|exact Hstg|exact Ho|right; split; [apply Hdone; exact Ha0|exact Hfo0]].
+            intros Heq. subst X. apply HXs. apply Hd1. exact Hsp.
+          - intros a0 op0 up0 [Ha0|Ha0] Hfo0.
+            + subst a0. rewrite Hfo in Hfo0. inversion Hfo0; subst op0 up0. split; [exact Hcs|exact Hb].
+            + destruct (Hpo a0 op0 up0 Ha0 Hfo0) as [Hc0 Ho0]. split; [exact Hc0|apply Hm1; exact Ho0]. }
+        destruct (IHr _ _ _ _ _ _ _ _ _ (a :: done) Hinclr Hdone' HW1 Hd1 HI1 Hpre1 Hrun) as [HI2 [Ht2 Hpre2]].
+        split; [exact HI2|]. split.
+        * eapply touched_trans; [| |exact Ht1|exact Ht2].
+          -- intros X HX. eapply newly_left; [exact Hm2|exact HX].
+          -- intros X HX. eapply newly_right; [exact Hm1|exact HX].
+        * intros Hf. eapply pre_ok_incl; [exact Hshuffle|apply Hpre2; exact Hf].
+      + destruct (short_top H a root c) as [cm|] eqn:Hst; [|discriminate].
+        assert (Hpre1 : doit || negb cm = false -> pre_ok root ran (a :: done)).
+        { intros Hf. apply orb_false_iff in Hf as [Hdo Hcm]. apply negb_false_iff in Hcm. subst cm.
+          destruct (Hpre Hdo) as [Hpp Hpo]. split.
+          - intros a0 [Ha0|Ha0] Hfo0; [subst a0; exact Hst|apply Hpp; assumption].
+          - intros a0 op0 up0 [Ha0|Ha0] Hfo0; [subst a0; congruence|eapply Hpo; eassumption]. }
+        destruct (IHr _ _ _ _ _ _ _ _ _ (a :: done) Hinclr Hdone' HW Hd HI Hpre1 Hrun) as [HI2 [Ht2 Hpre2]].
+        split; [exact HI2|]. split; [exact Ht2|].
+        intros Hf. eapply pre_ok_incl; [exact Hshuffle|apply Hpre2; exact Hf].
+  Qed.
+
+  Lemma mono_ins sp d ran1 : alookup sp ran1 = None -> mono ran1 (ins_sorted sp d ran1).
+  Proof.
+    intros Hn s b Hs. rewrite alookup_ins_other; [exact Hs|]. intros Heq. subst s. congruence.
+  Qed.
+
+  Lemma frame_post : forall f stack, frame_spec f stack.
+  Proof.
+    induction f as [|f IH]; intros stack root ran log fin sp root' ran' log' HW Hd HI Hrun.
+    { simpl in Hrun. discriminate. }
+    rewrite run_stage_S in Hrun.
+    destruct (alookup sp ran) as [b0|] eqn:Hfresh.
+    { inversion Hrun; subst. split; [exact HI|apply touched_refl]. }
+    destruct (mem sp stack) eqn:Hmem; [discriminate|].
+    destruct (alookup sp idx) as [stg|] eqn:Hstg; [|discriminate].
+    destruct (runI f (sp :: stack) (s_inputs stg) root ran log (do0_of H stg))
+      as [[[[root1 ran1] log1] do1]|] eqn:Hins; [|discriminate].
+    assert (Hds : disj ran (sp :: stack)).
+    { intros s [Hs|Hs]; [subst s; exact Hfresh|apply Hd; exact Hs]. }
+    destruct (ins_facts H exec idx c True _ _ _ _ _ _ _ _ _ _ _ _ _ _ Hstg (incl_refl _) HW Hds Hins)
+      as [fin1 [HW1 [Hd1 [Hm1 [Hown1 _]]]]].
+    destruct (ins_frame f (sp :: stack) sp stg (IH (sp :: stack)) Hstg (or_introl eq_refl)
+                        _ _ _ _ _ _ _ _ _ _ [] (incl_refl _) (incl_nil_l _) HW Hds HI
+                        (fun _ => pre_ok_nil root ran) Hins) as [HI1 [Ht1 Hpre1]].
+    assert (Hsp1 : alookup sp ran1 = None) by (apply Hd1; left; reflexivity).
+    unfold run_finish in Hrun.
+    destruct (if do1 then Ok true else any_stale H (s_outputs stg) root1 c) as [d|] eqn:Hd2; [|discriminate].
+    pose proof (mono_ins sp d ran1 Hsp1) as Hm2.
+    assert (Hnew : forall X, newly ran ran1 X -> newly ran (ins_sorted sp d ran1) X).
+    { intros X HX. eapply newly_left; [exact Hm2|exact HX]. }
+    assert (Hidx2 : forall s b, alookup s (ins_sorted sp d ran1) = Some b -> exists stg0, alookup s idx = Some stg0).
+    { intros s b Hs. destruct (bytes_dec s sp) as [He|Hn]; [subst s; exists stg; exact Hstg|].
+      rewrite alookup_ins_other in Hs by exact Hn. eapply (I_idx _ _ _ HI1). exact Hs. }
+    destruct (d && has_cmd_of stg) eqn:Hdc.
+    - (* executed *)
+      apply andb_true_iff in Hdc as [Hdt Hcmd]. subst d.
+      destruct (exec sp stg root1 c) as [root2|] eqn:Hex; [|discriminate]. inversion Hrun; subst root' ran' log'.
+      assert (Ht2 : touched (eq sp) root1 root2).
+      { intros p Hout. eapply framed; [exact Hstg|exact Hex|]. intros o Ho. eapply Hout; [reflexivity|exact Hstg|exact Ho]. }
+      split.
+      + split.
+        * exact Hidx2.
+        * intros Y sy HY Hsy. assert (Hne : Y <> sp).
+          { intros Heq. subst Y. rewrite alookup_ins_same in HY. discriminate. }
+          rewrite alookup_ins_other in HY by exact Hne.
+          eapply (clean_move (eq sp)); [exact Hsy|exact Ht2| |exact Hm2|].
+          -- intros X HX. subst X. congruence.
+          -- eapply (I_clean _ _ _ HI1); eassumption.
+        * intros X [HX|HX]; [subst X; apply alookup_ins_same|].
+          apply Hm2. apply (I_log _ _ _ HI1). exact HX.
+        * intros X sx HX Hsx Hc. destruct (bytes_dec X sp) as [He|Hn]; [left; congruence|].
+          right. rewrite alookup_ins_other in HX by exact Hn. eapply (I_ran _ _ _ HI1); eassumption.
+      + eapply touched_trans; [exact Hnew| |exact Ht1|exact Ht2].
+        intros X HX. subst X. split; [exact Hfresh|]. rewrite alookup_ins_same. discriminate.
+    - (* not executed *)
+      inversion Hrun; subst root' ran' log'.
+      split; [|eapply touched_weaken; [exact Hnew|exact Ht1]].
+      split.
+      + exact Hidx2.
+      + intros Y sy HY Hsy. destruct (bytes_dec Y sp) as [He|Hne].
+        * subst Y. rewrite alookup_ins_same in HY. inversion HY; subst d.
+          rewrite Hstg in Hsy. inversion Hsy; subst sy.
+          destruct do1; [discriminate|].
+          assert (Hd0 : do0_of H stg = false).
+          { destruct (do0_of H stg) eqn:Hd0; [|reflexivity].
+            pose proof (run_ins_mono H exec idx c _ _ _ _ _ _ _ _ _ _ _ Hins eq_refl). discriminate. }
+          apply do0_false in Hd0 as [Hns Hdef].
+          destruct (Hpre1 eq_refl) as [Hpp Hpo]. rewrite app_nil_r in Hpp, Hpo.
+          split.
+          -- exact Hdef.
+          -- exact Hns.
+          -- exact Hpp.
+          -- intros a op up Ha Hfo. destruct (Hpo a op up Ha Hfo) as [Hcs Hop].
+             split; [exact Hcs|apply Hm2; exact Hop].
+          -- apply any_stale_false. exact Hd2.
+        * rewrite alookup_ins_other in HY by exact Hne.
+          eapply (clean_move (fun _ => False)); [exact Hsy|apply touched_refl| |exact Hm2|].
+          -- intros X HX. destruct HX.
+          -- eapply (I_clean _ _ _ HI1); eassumption.
+      + intros X HX. apply Hm2. apply (I_log _ _ _ HI1). exact HX.
+      + intros X sx HX Hsx Hc. destruct (bytes_dec X sp) as [He|Hn].
+        * exfalso. subst X. rewrite alookup_ins_same in HX. inversion HX; subst d.
+          rewrite Hstg in Hsx. inversion Hsx; subst sx.
+          apply has_cmd_spec in Hc. rewrite Hc in Hdc. discriminate.
+        * rewrite alookup_ins_other in HX by exact Hn. eapply (I_ran _ _ _ HI1); eassumption.
+  Qed.
+
+  Lemma frame_targets fuel : forall ts root ran log fin root' ran' log',
+    W idx true True ran log fin -> Inv root ran log ->
+    run_targets H exec idx c true fuel ts (Ok (root, ran, log)) = Ok (root', ran', log') ->
+    Inv root' ran' log' /\ touched (newly ran ran') root root'.
+  Proof.
+    induction ts as [|t r IH]; intros root ran log fin root' ran' log' HW HI Hrun.
+    - inversion Hrun; subst. split; [exact HI|apply touched_refl].
+    - rewrite run_targets_cons in Hrun.
+      destruct (runS fuel idx c true root ran log [] t) as [[[root1 ran1] log1]|] eqn:Hone.
+      2:{ rewrite run_targets_Err in Hrun. discriminate. }
+      destruct (run_facts H exec idx c True _ _ _ _ _ _ _ _ _ _ HW (disj_nil ran) Hone)
+        as [fin1 [HW1 [_ [Hm1 _]]]].
+      destruct (frame_post fuel [] _ _ _ _ _ _ _ _ HW (disj_nil ran) HI Hone) as [HI1 Ht1].
+      destruct (IH _ _ _ _ _ _ _ HW1 HI1 Hrun) as [HI2 Ht2].
+      split; [exact HI2|].
+      destruct (run_targets_post H exec idx c true True fuel r _ _ _ _ _ _ _ HW1 Hrun) as [fin2 [Hp2 _]].
+      eapply touched_trans; [| |exact Ht1|exact Ht2].
+      + intros X HX. eapply newly_left; [exact (P_mono _ _ _ _ _ _ _ _ _ _ _ Hp2)|exact HX].
+      + intros X HX. eapply newly_right; [exact Hm1|exact HX].
+  Qed.
+
+  (* from any state that satisfies the invariants *)
+  Theorem C09_inv_preserved fuel ts root ran log root' ran' log' :
+    run_inv idx ran log -> Inv root ran log ->
+    run_targets H exec idx c true fuel ts (Ok (root, ran, log)) = Ok (root', ran', log') ->
+    Inv root' ran' log'.
+  Proof.
+    intros [fin HW] HI Hrun. eapply frame_targets; eassumption.
+  Qed.
+
+  (* the property *)
+  Theorem C09_executed_or_clean fuel ts root root' ran' log' :
+    run_targets H exec idx c true fuel ts (Ok (root, [], [])) = Ok (root', ran', log') ->
+    (* every visited stage is a stage of the index *)
+    (forall sp b, alookup sp ran' = Some b -> exists stg, alookup sp idx = Some stg) /\
+    (* visited and not run: unchanged since its last commit, IN THE FINAL ROOT *)
+    (forall sp stg, alookup sp idx = Some stg -> alookup sp ran' = Some false ->
+       def_checksum H stg = s_cs stg /\ s_cs stg <> [] /\
+       (forall a, In a (s_inputs stg) -> find_owner idx (a_path a) = None ->
+                  short_top H a root' c = Ok true) /\
+       (forall a op up, In a (s_inputs stg) -> find_owner idx (a_path a) = Some (op, up) ->
+                        a_cs a = a_cs up /\ alookup op ran' = Some false) /\
+       (forall o, In o (s_outputs stg) -> short_top H o root' c = Ok true)) /\
+    (* run, with a command: executed, after every executed owner of one of its inputs *)
+    (forall sp stg, alookup sp idx = Some stg -> alookup sp ran' = Some true -> s_cmd stg <> [] ->
+       In sp log' /\
+       forall op, edge idx op sp -> In op log' -> exists p q r, rev log' = p ++ op :: q ++ sp :: r) /\
+    (* only stages that were run are executed *)
+    (forall sp, In sp log' -> alookup sp ran' = Some true).
+  Proof.
+    intros Hrun.
+    pose proof (C09_inv_preserved fuel ts root [] [] root' ran' log' (run_inv_init idx) (Inv_nil root) Hrun) as HI.
+    split; [apply HI|]. split; [|split; [|apply HI]].
+    - intros sp stg Hstg Hf. pose proof (I_clean _ _ _ HI sp stg Hf Hstg) as Hcl.
+      destruct (cl_def _ _ _ Hcl) as [Hne Heq].
+      split; [exact Heq|]. split; [exact Hne|]. split; [apply Hcl|]. split; [apply Hcl|apply Hcl].
+    - intros sp stg Hstg Ht Hc. assert (Hin : In sp log') by (eapply (I_ran _ _ _ HI); eassumption).
+      split; [exact Hin|]. intros op He Hop.
+      eapply (C08_order H exec idx c fuel ts root [] [] root' ran' log' op sp (run_inv_init idx) Hrun); assumption.
+  Qed.
+End Frame.
+
+Print Assumptions C09_executed_or_clean.
